@@ -51,7 +51,7 @@ def raised_by(f, *a, **k):
         raise HarnessEscape(type(e).__name__)
 
 
-def check(d, schema, x, fc=False):
+def check(d, schema, x, fc=False, variant="cls"):
     cls = tp.CLS[d]
     kw = {"format_checker": FormatChecker()} if fc else {}
     v = cls(schema, **kw)
@@ -72,61 +72,53 @@ def check(d, schema, x, fc=False):
         return False, tag
     if r1 is not None and esig(r1) != sigs[0]:
         return False, tag
-    r1b = raised_by(v.validate, x)
-    if (r1b is None) != valid or (r1b is not None and esig(r1b) != sigs[0]):
-        return False, tag
     pool = [esig(e) for e in closure(errs)]
+    # module-level validate(): with the class given explicitly, or chosen from $schema (one of the two per condition, `variant`)
+    target = schema
+    mkw = dict(kw)
+    if variant == "$schema" and isinstance(schema, dict):
+        target = dict(schema)
+        target["$schema"] = META_ID[d]
+    else:
+        mkw["cls"] = cls
     try:
-        cls.check_schema(schema)
-        schema_ok = True
+        jsonschema.validate(x, target, **mkw)
+        r2 = None
+    except ValidationError as e:
+        r2 = e
     except SchemaError:
-        schema_ok = False
-    except Exception as e:
-        raise HarnessEscape(type(e).__name__)
-    if not schema_ok:
-        # the template is not a valid schema of this draft: the module-level entry point must say so, whatever the instance
+        # the template is not a valid schema of this draft: check_schema must agree, and that is all there is to compare
         try:
-            jsonschema.validate(x, schema, cls=cls, **kw)
+            cls.check_schema(schema)
             return False, tag
         except SchemaError:
             return True, tag
+    except Exception as e:
+        raise HarnessEscape(type(e).__name__)
+    if (r2 is None) != valid:
+        return False, tag
+    if r2 is not None:
+        try:
+            bm = best_match(v.iter_errors(x))
         except Exception as e:
             raise HarnessEscape(type(e).__name__)
-    schema2 = None
-    if isinstance(schema, dict):
-        schema2 = dict(schema)
-        schema2["$schema"] = META_ID[d]
-    for i in range(2):
-        if i == 0:
-            r2 = raised_by(jsonschema.validate, x, schema, cls=cls, **kw)
-        elif schema2 is not None:
-            r2 = raised_by(jsonschema.validate, x, schema2, **kw)       # class chosen from $schema
-        else:
-            break
-        if (r2 is None) != valid:
+        if bm is None or esig(bm) != esig(r2):
+            return False, tag           # it must be best_match of the errors (the heuristic itself is not judged)
+        if len(r2.context) != 0:
             return False, tag
-        if r2 is not None:
-            try:
-                bm = best_match(v.iter_errors(x))
-            except Exception as e:
-                raise HarnessEscape(type(e).__name__)
-            if bm is None or esig(bm) != esig(r2):
-                return False, tag           # it must be best_match of the errors (the heuristic itself is not judged)
-            if len(r2.context) != 0:
-                return False, tag
-            s2 = esig(r2)
-            found = False
-            for p in pool:
-                if p == s2:
-                    found = True
-                    break
-            if not found:
-                return False, tag
+        s2 = esig(r2)
+        found = False
+        for p in pool:
+            if p == s2:
+                found = True
+                break
+        if not found:
+            return False, tag
     return True, tag
 
 
-def single(name, draft, kind, L=2, N=2, N2=None, pair=None, tags=("valid", "invalid"), fc=False):
-    return tp.make_spec(name, draft, kind, lambda d, s, x: check(d, s, x, fc), L=L, N=N, N2=N2, pair=pair, tags=tags)
+def single(name, draft, kind, L=2, N=2, N2=None, pair=None, tags=("valid", "invalid"), fc=False, variant="cls"):
+    return tp.make_spec(name, draft, kind, lambda d, s, x: check(d, s, x, fc, variant), L=L, N=N, N2=N2, pair=pair, tags=tags)
 
 
 def invalid_schema(d, k, kind):
@@ -182,6 +174,10 @@ def conditions(tier, seed, active):
     for c in fcs:
         c["id"] += "+fc"
     out += fcs
+    for i, c in enumerate(out):
+        if i % 2:
+            c["params"] = dict(c["params"], variant="$schema")     # the class is chosen from $schema in every other condition
+            c["id"] += "@$schema"
     for d in (3, 4, 6, 7):
         for k in cand.keywords(d):
             kinds = cand.kinds_for(k)
